@@ -8,7 +8,7 @@ import numpy as np
 from hypothesis import strategies as st
 
 from vf import forms, gens, refs
-from vf.core import Result, lib
+from vf.core import Result, history_independent, lib
 
 ID = "C07"
 TITLE = "Density, formation volume factor and compressibility are mutually consistent"
@@ -158,6 +158,14 @@ def check_case(case) -> Result:
             res.bad("C07/gas-viscosity-positive", f"viscosity {mu1!r}, {mu2!r} at p={p!r}, {p2!r} T_r={tr!r}")
         else:
             res.check("C07/gas-viscosity-increases", max(0.0, mu1 - mu2), frel * mu1, f"mu({p!r})={mu1!r} > mu({p2!r})={mu2!r} at T_r={tr!r} sg={sg!r};")
+    # each correlation is a function of its arguments only (no state carried between calls)
+    for name, fn, args, others in (
+        ("density_DAK", G.density_DAK, (T, p, tpc, ppc, sg), [(T, p, tpc, ppc, sg * 1.1), (T * (1 + 2e-6) + 1e-3, p, tpc, ppc, sg), (T, 0.5 * p, tpc, ppc, sg)]),
+        ("viscosity_Sutton", G.viscosity_Sutton, (T, p, tpc, ppc, sg), [(T, p, tpc, ppc, sg * 1.1), (T, 0.5 * p, tpc, ppc, sg * 0.9), (T + 1e-3, p, tpc, ppc, sg)]),
+        ("compressibility_DAK", G.compressibility_DAK, (T, p, tpc, ppc), [(T + 1e-3, p, tpc, ppc), (T, p, tpc, ppc * 1.0001), (T, 0.5 * p, tpc, ppc)]),
+        ("b_factor_DAK", G.b_factor_DAK, (T, p, tpc, ppc), [(T, p, tpc, ppc, 59.0, 14.65), (T + 1e-3, p, tpc, ppc)]),
+    ):
+        lib(name, history_independent, res, "C07/independent-of-call-history", fn, args, others, name)
     c_lib, num, _c_var, _c_pub = lib("gas compressibility / density", _gas_consistency, g)
     if (tf, pf) != ("float", "float"):
         c_form = float(lib(f"compressibility_DAK(T as {tf}, p as {pf})", G.compressibility_DAK, Tg, pg, tpc, ppc))
@@ -178,8 +186,16 @@ def check_case(case) -> Result:
         straddle = True
         gamma_o = 141.5 / (131.5 + api)
         arr = np.array(ps)
-        rho_arr = np.asarray(lib("density_Standing(array)", O.density_Standing, To, arr, api, sgo, gor), float)
-        bo_arr = np.asarray(lib("b_o_Standing(array)", O.b_o_Standing, To, arr, api, sgo, gor), float)
+        # the pressures are handed over in ascending order, as a depletion path or in no particular order
+        k_ = len(arr)
+        perm = {0: np.arange(k_), 1: np.arange(k_)[::-1], 2: np.concatenate([np.arange(1, k_, 2), np.arange(0, k_, 2)[::-1]])}[len(case["oil_fracs"]) % 3]
+        inv = np.argsort(perm)
+        res.labels["oil_array_order"] = ("ascending", "descending", "unordered")[len(case["oil_fracs"]) % 3]
+        rho_arr = np.asarray(lib("density_Standing(array)", O.density_Standing, To, arr[perm].copy(), api, sgo, gor), float)
+        bo_arr = np.asarray(lib("b_o_Standing(array)", O.b_o_Standing, To, arr[perm].copy(), api, sgo, gor), float)
+        if rho_arr.shape == arr.shape and bo_arr.shape == arr.shape:
+            rho_arr, bo_arr = rho_arr[inv], bo_arr[inv]
+        lib("density_Standing", history_independent, res, "C07/independent-of-call-history", O.density_Standing, (To, float(ps[0]), api, sgo, gor), [(To, float(ps[0]), api, sgo, gor * 1.5), (To + 1e-3, float(ps[-1]), api + 1, sgo, gor)], "density_Standing")
         for k, q in enumerate(ps):
             rs = float(lib("solution_gor_Standing", O.solution_gor_Standing, To, q, api, sgo, gor))
             bo = float(lib("b_o_Standing", O.b_o_Standing, To, q, api, sgo, gor))
